@@ -90,10 +90,10 @@ def build_and_run(ctx, cases, cfgs, opts):
     for t, lst in by_t.items():
         lst.sort(key=lambda c: (len(c["N"]) + len(c["D"]), c["N"], c["D"]))
         if opts.get("full32") and t in ("i32", "u32"):
-            # all 2^32 values: a stratified dozen of instances per rep, each alone in its program (minutes each under the sanitizer build);
-            # the other instances get the boundary / random treatment
-            stride = max(1, len(lst) // 12)
-            full = [c for j, c in enumerate(lst) if j % stride == 0][:12]
+            # all 2^32 values: four instances per rep, each alone in its program, in the plain g++ build only (measured: a sanitizer build
+            # needs ~50 min per instance, the plain build ~10); the other instances get the boundary / random treatment
+            stride = max(1, len(lst) // 4)
+            full = [c for j, c in enumerate(lst) if j % stride == 1][:4]
             for c in full:
                 c["_full32"] = True
                 batches.append([c])
@@ -128,10 +128,10 @@ def build_and_run(ctx, cases, cfgs, opts):
 
     def run(x):
         exe, b, cfg = x
-        full32 = bool(opts.get("full32")) and all(c.get("_full32") for c in b) and cfg in cfgs[:2]
+        full32 = bool(opts.get("full32")) and all(c.get("_full32") for c in b) and cfg == "g14"
         args = ["--seed", str(ctx.seed), "--nrandom", str(opts["nrandom"]), "--nbhd", str(opts["nbhd"]),
                 "--sample-shift", str(opts["sample_shift"] + (14 if full32 else 0)), "--full32", "1" if full32 else "0"]
-        recs = ctx.run_ndjson(exe, args, timeout=3000)
+        recs = ctx.run_ndjson(exe, args, timeout=6000 if full32 else 3000)
         for r in recs:
             r["cfg"] = cfg
         return recs
